@@ -65,6 +65,10 @@ def verify_case(repo, qualname, case_index, timeout_ms=10000, want_models=True):
             ax = list(axioms)
             if solve.uses_decl(list(o.assumptions) + [o.goal], 'val_lt'):
                 ax += val_order_axioms()
+            fs_ = list(o.assumptions) + [o.goal]
+            if solve.uses_decl(fs_, 'dtype_is_string') or solve.uses_decl(fs_, 'val_of_int'):
+                from .pandas_model import dtype_axioms
+                ax += dtype_axioms(with_ints=solve.uses_decl(fs_, 'val_of_int'))
             r = solve.discharge(o, timeout_ms=timeout_ms, axioms=ax, want_model=want_models)
             out['results'].append(r.to_dict())
         out['notes'] = ex.notes
